@@ -660,7 +660,7 @@ def gen_store(pid, tier, seed, scale, rng, hists, stats):
             stats["event histories"] += 1
         # mutable access through joins and restricted items, with readers and the emission switch
         for focus in ("join", "restrict"):
-            for _ in range((100 if q else 1200) * scale):
+            for _ in range((250 if q else 2500) * scale):
                 hists.append(jg.join_history(rng, rng.randint(8, 30), focus))
                 stats["%s-focused join histories" % focus] += 1
         for _ in range((60 if q else 600) * scale):
